@@ -130,6 +130,28 @@ def int_types(doc_type, dest_kind, negative, codes):
         sx.reach("negative")
 
 
+def reals(doc_type):
+    """REAL32/REAL64 defaults and parameter values of a dictionary built in code (no original text): the exported text
+    identifies the number - REAL64 to all its digits, REAL32 values that are float32 numbers exactly"""
+    import math
+    od = C.odmod().ObjectDictionary()
+    vals64 = [math.pi / 1000, 1 / 3, 5e-324, 1.7976931348623157e308, 123456789.12345679, -2.5, 0.1]
+    vals32 = [0.5, 1.5e10, 0.10000000149011612, -3.4028234663852886e38, 1.401298464324817e-45]
+    mem = [C.mkvar("n", 0x2400, 0, 0x05, "ro", default=len(vals64))]
+    for i, v in enumerate(vals64):
+        var = C.mkvar("r64 %d" % i, 0x2400, i + 1, 0x11, "rw", default=v)
+        var.value = vals64[(i + 1) % len(vals64)]
+        mem.append(var)
+    od.add_object(C.mkrecord("Reals", 0x2400, mem))
+    for i, v in enumerate(vals32):
+        var = C.mkvar("r32 %d" % i, 0x2500 + i, 0, 0x08, "rw", default=v)
+        var.value = v
+        od.add_object(var)
+    od2 = _import(_export(od, doc_type, "stream"), doc_type)
+    _same_od(od, od2, "C14/reals/%s" % doc_type, doc_type == "dcf")
+    sx.reach("reals")
+
+
 def export_twice(first_type, doc_type):
     """exporting is a pure function of the dictionary as it is *now*: a dictionary built in code is exported, then its
     defaults / parameter values are edited in code, then it is exported again - the second document describes the
@@ -314,6 +336,8 @@ def destinations(doc_type):
 def jobs(tier):
     out = []
     for a in ("eds", "dcf"):
+        out.append(dict(func="reals", params=dict(doc_type=a)))
+    for a in ("eds", "dcf"):
         for b in ("eds", "dcf"):
             out.append(dict(func="export_twice", params=dict(first_type=a, doc_type=b)))
     for doc in ("eds", "dcf"):
@@ -360,7 +384,7 @@ META = dict(
                     "relative ($NODEID) spelling preserved (only the resolved value is compared)"],
     assumptions=[],
     stubs=["int()/hex()/format()/str() with number tokens", "dict/set displays -> SymDict/SymSet", "logging"],
-    required_reach=["export-twice", "int-eds", "int-dcf", "dest-stream", "dest-file", "dest-stdout", "negative", "structure-eds",
+    required_reach=["export-twice", "reals", "int-eds", "int-dcf", "dest-stream", "dest-file", "dest-stdout", "negative", "structure-eds",
                     "structure-dcf", "destinations", "imported", "booleans"],
     limits=dict(quick=dict(), thorough=dict()),
 )
